@@ -645,10 +645,64 @@ def partition(members):
     return main, parts
 
 
+def validate_composability(nodes, constants):
+    """
+    Rejects definitions which break the composability rules of the wire format (see docs: schema, encoding).
+    Requires cross referenced nodes and evaluated kinds.
+    """
+    def fail(node_, member, what):
+        raise ModelError("%s::%s %s" % (node_.name, member.name, what))
+
+    def check_32bit(node_, member, text):
+        try:
+            value = to_int(text, constants)
+        except (calc.ParseError, TypeError, ValueError):
+            return
+        if isinstance(value, int) and not 0 <= value < (1 << 32):
+            fail(node_, member, "value %s does not fit 32 bits" % value)
+
+    for node in nodes:
+        if isinstance(node, Struct):
+            for index, member in enumerate(node.members):
+                if member.kind == Kind.UNLIMITED and member.is_array:
+                    fail(node, member, "is an array of an unlimited type")
+                if member.kind != Kind.FIXED and member.size:
+                    fail(node, member, "is a fixed or limited array of a dynamic type")
+                if member.kind != Kind.FIXED and member.optional:
+                    fail(node, member, "is an optional of a dynamic type")
+                if (member.greedy or member.kind == Kind.UNLIMITED) and index != len(node.members) - 1:
+                    fail(node, member, "is unlimited but not the last member")
+                if member.bound:
+                    sizers = [m for m in node.members[:index] if m.name == member.bound]
+                    if not sizers:
+                        fail(node, member, "is sized by '%s' which is not a preceding member" % member.bound)
+                    if sizers[0].optional or sizers[0].is_array:
+                        fail(node, member, "is sized by '%s' which is optional or an array" % member.bound)
+                    sizer_type = sizers[0]
+                    while isinstance(sizer_type, Typedef) and sizer_type.definition:
+                        sizer_type = sizer_type.definition
+                    if not isinstance(sizer_type, Typedef) or sizer_type.type_name[:1] not in "ui" or \
+                            sizer_type.type_name not in BUILTIN_SIZES:
+                        fail(node, member, "is sized by '%s' which is not of an integer type" % member.bound)
+        elif isinstance(node, Union):
+            discriminators = set()
+            for member in node.members:
+                if member.kind != Kind.FIXED:
+                    fail(node, member, "is a union arm of a dynamic type")
+                check_32bit(node, member, member.discriminator)
+                if str(member.discriminator) in discriminators:
+                    fail(node, member, "repeats discriminator %s" % member.discriminator)
+                discriminators.add(str(member.discriminator))
+        elif isinstance(node, Enum):
+            for member in node.members:
+                check_32bit(node, member, member.value)
+
+
 def evaluate_model(nodes, warn_emitter=lambda x: None):
     topological_sort(nodes)
     constants = cross_reference(nodes, warn_emitter)
     evaluate_stiffness_kinds(nodes)
+    validate_composability(nodes, constants)
     evaluate_sizes(nodes, warn_emitter)
     return nodes, constants
 
